@@ -1157,3 +1157,102 @@ func (c *Ctx) localEffOnly(fn *ssa.Function) Eff {
 	})
 	return e
 }
+
+// ---------------------------------------------------------------- CNT1
+
+// CNT1: where Count is served from the stored counter, the value compared with
+// the query's limit is the counter minus the skip (clamped): the limit caps the
+// size of the window that remains after skipping, not the collection size.
+func ruleCNT1(c *Ctx) []Ob {
+	o := newObs(c, "CNT1")
+	getSkip := c.lookupMethod("query", "Query", "GetSkip")
+	getLimit := c.lookupMethod("query", "Query", "GetLimit")
+	isCallTo := func(v ssa.Value, f *ssa.Function) bool {
+		call, ok := v.(*ssa.Call)
+		if !ok || f == nil {
+			return false
+		}
+		g := staticCallee(call)
+		return g != nil && c.declared(g) == f
+	}
+	n := 0
+	for _, fn := range c.LibFuncs {
+		if c.pkgRel(fn) != "" {
+			continue
+		}
+		usesSkip, usesLimit := false, false
+		allCalls(fn, func(call ssa.CallInstruction) {
+			if g := staticCallee(call); g != nil {
+				if c.declared(g) == getSkip {
+					usesSkip = true
+				}
+				if c.declared(g) == getLimit {
+					usesLimit = true
+				}
+			}
+		})
+		if !usesSkip || !usesLimit || fn.Signature.Results().Len() == 0 || !isIntType(fn.Signature.Results().At(0).Type()) {
+			continue
+		}
+		// every non-constant origin (through phis) of v is `x - GetSkip()`
+		var afterSkip func(v ssa.Value, seen map[ssa.Value]bool) bool
+		afterSkip = func(v ssa.Value, seen map[ssa.Value]bool) bool {
+			if seen[v] {
+				return true
+			}
+			seen[v] = true
+			switch x := v.(type) {
+			case *ssa.Const:
+				return true
+			case *ssa.Phi:
+				for _, e := range x.Edges {
+					if !afterSkip(e, seen) {
+						return false
+					}
+				}
+				return true
+			case *ssa.BinOp:
+				if x.Op == token.SUB && isCallTo(x.Y, getSkip) {
+					return true
+				}
+				return false
+			}
+			return false
+		}
+		for _, b := range fn.Blocks {
+			for _, in := range b.Instrs {
+				bo, ok := in.(*ssa.BinOp)
+				if !ok {
+					continue
+				}
+				switch bo.Op {
+				case token.LSS, token.LEQ, token.GTR, token.GEQ:
+				default:
+					continue
+				}
+				var other ssa.Value
+				if isCallTo(bo.X, getLimit) {
+					other = bo.Y
+				} else if isCallTo(bo.Y, getLimit) {
+					other = bo.X
+				} else {
+					continue
+				}
+				if _, isConst := other.(*ssa.Const); isConst {
+					continue // limit >= 0
+				}
+				n++
+				key := c.fname(fn) + "/limit compared with size minus skip"
+				if afterSkip(other, map[ssa.Value]bool{}) {
+					o.add(OK, key, relPath(c, bo.Pos()), "the limit is compared with the counter after the skip has been subtracted")
+				} else {
+					o.add(VIOLATED, key, relPath(c, bo.Pos()), "the limit is compared with the collection size before the skip is subtracted: Count(q) = min(limit, max(size - skip, 0)), so on the last partial page Count exceeds len(FindAll)")
+				}
+			}
+		}
+	}
+	if n == 0 {
+		o.add(INFO, "counter-shortcut", "-", "no function combines GetSkip and GetLimit arithmetically (Count not served from the counter)")
+	}
+	return o.list
+}
